@@ -262,7 +262,9 @@ func ruleGuardInfSign(c *Ctx) {
 	}
 }
 
-// G6: arithmetic on a caller-supplied int (dp of Round/Ceil/Floor) happens only after it is bounded.
+// G6: arithmetic on a caller-supplied int (dp of Round/Ceil/Floor) cannot overflow: every + - * that
+// involves dp is evaluated on the intervals the analysis knows at that statement, and the mathematical
+// result must stay inside the range of int.
 func ruleRawIntParams(c *Ctx) {
 	p := c.P
 	for _, name := range []string{"Decimal.Round", "Decimal.Ceil", "Decimal.Floor"} {
@@ -275,38 +277,82 @@ func ruleRawIntParams(c *Ctx) {
 			continue
 		}
 		dp := ps[0]
-		key := p.exprKey(&ast.Ident{Name: dp.Name()})
-		_ = key
-		// first statement that computes with dp
-		var site ast.Stmt
-		dkey := ""
-		for _, s := range fd.Body.List {
-			as, ok := s.(*ast.AssignStmt)
-			if !ok || len(as.Lhs) != 1 || p.objOf(as.Lhs[0]) != dp {
-				continue
+		bad := ""
+		var badNode ast.Node
+		n := 0
+		walkStack(fd.Body, func(nd ast.Node, stack []ast.Node) {
+			var op token.Token
+			var xs []ast.Expr
+			switch x := nd.(type) {
+			case *ast.BinaryExpr:
+				switch x.Op {
+				case token.ADD, token.SUB, token.MUL:
+					op, xs = x.Op, []ast.Expr{x.X, x.Y}
+				}
+			case *ast.UnaryExpr:
+				if x.Op == token.SUB {
+					op, xs = token.SUB, []ast.Expr{nil, x.X}
+				}
 			}
-			dkey = p.exprKey(as.Lhs[0])
-			if be, ok := ast.Unparen(as.Rhs[0]).(*ast.BinaryExpr); ok && (be.Op == token.ADD || be.Op == token.SUB || be.Op == token.MUL) {
-				site = as
-				break
+			if xs == nil {
+				return
 			}
-		}
-		if site == nil {
-			c.undecided("rawint:"+name, fd, "the statement that turns dp into a biased exponent was not found", "C08")
+			// only arithmetic on dp itself (directly or through its own sub-expressions)
+			uses := false
+			for _, e := range xs {
+				if e == nil {
+					continue
+				}
+				ast.Inspect(e, func(m ast.Node) bool {
+					if id, ok := m.(*ast.Ident); ok && p.Info.Uses[id] == dp {
+						uses = true
+					}
+					return !uses
+				})
+			}
+			t := p.typeOf(nd.(ast.Expr))
+			if !uses || t == nil || !isIntType(t) || p.constOf(nd.(ast.Expr)) != nil {
+				return
+			}
+			n++
+			var site ast.Node
+			full := append(append([]ast.Node{}, stack...), nd)
+			for i := len(full) - 1; i >= 0; i-- {
+				if _, ok := full[i].(ast.Stmt); ok {
+					site = full[i]
+					break
+				}
+			}
+			env, reached := p.envWalk(fd.Body.List, ienv{}, site)
+			if !reached || site == nil {
+				bad, badNode = "the statement could not be located", nd
+				return
+			}
+			if ifs, ok := site.(*ast.IfStmt); ok && containsNode(ifs.Cond, nd) {
+				env = p.condEnv(ifs.Cond, env, nd)
+			}
+			l := ival{lo: big.NewInt(0), hi: big.NewInt(0)}
+			if xs[0] != nil {
+				l = p.evalI(xs[0], env)
+			}
+			r := p.evalI(xs[1], env)
+			res := p.combine(op, l, r)
+			tr := typeRangeOf(t)
+			if res.lo == nil || res.hi == nil || res.lo.Cmp(tr.lo) < 0 || res.hi.Cmp(tr.hi) > 0 {
+				bad = fmt.Sprintf("`%s` can overflow: its operands lie in [%v, %v] and [%v, %v] here", p.exprStr(nd.(ast.Expr)), l.lo, l.hi, r.lo, r.hi)
+				badNode = nd
+			}
+		})
+		if n == 0 {
+			c.undecided("rawint:"+name, fd, "no arithmetic on dp found", "C08")
 			continue
 		}
-		iv, reached := p.ivalWalk(fd.Body.List, ival{}, dkey, site)
-		okk := reached && iv.lo != nil
-		desc := "unbounded below"
-		if iv.lo != nil {
-			desc = "dp >= " + iv.lo.String()
-			// -dp + bias must not overflow int (at least 32 bits): need -lo + bias <= MaxInt32
-			if iv.lo.IsInt64() && -iv.lo.Int64()+specBias > 1<<31-1 {
-				okk = false
-			}
+		var at ast.Node = fd
+		if badNode != nil {
+			at = badNode
 		}
-		c.check(okk, "rawint:"+name, site, "dp is bounded below before it is negated ("+desc+")",
-			name+": `"+p.exprStr(site.(*ast.AssignStmt).Rhs[0])+"` is computed from a caller-supplied dp that is "+desc+" at this point; for dp near math.MinInt the negation overflows and the quantum looks tiny", "C08")
+		c.check(bad == "", "rawint:"+name, at, fmt.Sprintf("no arithmetic on the caller-supplied dp can overflow (%d expressions, interval analysis)", n),
+			name+": "+bad+"; for dp near math.MinInt or math.MaxInt the result wraps and the quantum is misjudged", "C08")
 	}
 }
 
